@@ -14,7 +14,10 @@ RecVerdict(c, k) ==
       \* the record GAINS one ps:Z and one ht:Z: removing one of each must leave the input's optional fields
       \* (an input that already carries ps:Z / ht:Z keeps them)
       gained == {<<p, h>> \in P \X H :
-                   LET rest == IF p < h THEN RemoveAt(RemoveAt(b.opt, h), p) ELSE RemoveAt(RemoveAt(b.opt, p), h) IN rest = a.opt}
+                   LET rest == IF p < h THEN RemoveAt(RemoveAt(b.opt, h), p) ELSE RemoveAt(RemoveAt(b.opt, p), h)
+                       \* (ds:Z is the one tag gaftools is documented to drop when it re-emits a record: kept or dropped, both are fine)
+                       NoDs(q) == SelectSeq(q, LAMBDA f : ~(f[1] = "ds" /\ f[2] = "Z"))
+                   IN rest = a.opt \/ rest = NoDs(a.opt)}
   IN IF b.ncols < 12 \/ b.empty_fields THEN "malformed_line"
      ELSE IF b.cols # a.cols THEN (IF b.cols[5] # a.cols[5] THEN "strand_altered" ELSE "mandatory_column_altered")
      ELSE IF \E j \in 1..Len(b.opt) : ~FieldShapeOK(b.opt[j]) THEN "malformed_optional_field"
